@@ -234,12 +234,17 @@ def taint(repo, col, R):
         if m_ in repo.classes["Module"].methods:
             todo.append(repo.classes["Module"].methods[m_])
     n_sinks = 0
+    todo.append(roots[0])
     for fi in todo:
-        if fi.qual in seen_q or fi.qual in ("integrate",):
+        if fi.qual in seen_q:
             continue
         seen_q.add(fi.qual)
         ex = E.expander(fi)
         traced = {p for p in fi.params if p in TRACED_PARAMS}
+        if fi.qual == "integrate":
+            # integrate itself is what users wrap in jit / vmap / grad: the values it is handed, and whatever it computes from the inputs
+            # with a jax operation, are traced there.  Its Python-level branches may only look at structure (keys, shapes, lengths).
+            traced = {"params", "param_state", "data_stimuli", "data_clamps", "all_states"} & set(fi.params)
         if fi.file == IG and fi.qual in ("add_stimuli", "add_clamps"):
             # these run inside the traced call: the module's own dictionaries are concrete, but the data-fed values
             # (element 1 of data_stimuli / data_clamps) are traced under jit / vmap / grad
@@ -272,6 +277,16 @@ def taint(repo, col, R):
             t = ex.term(expr)
             n_sinks += 1
             bad = _tainted(t, traced)
+            if fi.qual == "integrate":
+                # a bare container (`if externals:`), a length, a shape are structure; a VALUE computed with a jax operation is traced
+                if isinstance(expr, (ast.Name, ast.Attribute)) or (isinstance(expr, ast.UnaryOp) and isinstance(expr.operand, (ast.Name, ast.Attribute))):
+                    bad = False
+                jaxop = T.find(t, lambda x: x.op == "mcall" and x.args and x.args[0].op == "free" and x.args[0].name in ("jnp", "jax", "lax") and
+                               x.name not in ("shape", "ndim", "size", "result_type", "issubdtype"))
+                if jaxop is not None and T.find(jaxop, lambda y: y.op == "attr" and y.name in ("externals", "recordings") or (y.op == "param" and y.name in traced)) is not None:
+                    inside_static = T.find(t, lambda x: (x.op == "attr" and x.name in UNTAINT_ATTRS and T.find(x, lambda y: y is jaxop) is not None) or
+                                           (x.op == "call" and x.name in UNTAINT_CALLS and T.find(x, lambda y: y is jaxop) is not None))
+                    bad = bad or inside_static is None
             col.check(not bad, R, fi, f"{what} on `{unparse(expr)[:60]}`",
                       "static (shapes, keys, indices, solver names)",
                       f"{what} depends on a traced value (`{unparse(expr)[:80]}`): under jit/vmap/grad this raises or "
